@@ -757,7 +757,10 @@ impl<'a> Interp<'a> {
 
     fn binop(&self, op: BinOp, a: Val, b: Val) -> Result<Val, Abort> {
         // Ctx mode: both narrow -> 8-bit operation
-        if self.mode == EvalMode::Ctx && a.narrow && b.narrow && !op.is_logic() {
+        // (a left shift of a char by 8..15 is only ever written for a 16-bit result - `s = c << 8` -
+        // and is not an 8-bit operation in any reading: it takes the ISO path below)
+        let wide_shift = op == BinOp::Shl && (8..16).contains(&b.v);
+        if self.mode == EvalMode::Ctx && a.narrow && b.narrow && !op.is_logic() && !wide_shift {
             let signed = a.nsigned && b.nsigned;
             let (x, y) = (wrap8(a.v, a.nsigned), wrap8(b.v, b.nsigned));
             // comparison / arithmetic on 8-bit values: operands reinterpreted with the common signedness
